@@ -409,6 +409,7 @@ fn mw_phase(
             }
             let rm = sc.removed_by(comp);
             effs.retain(|e| !rm.contains(e));
+            effs.extend(sc.added_by(comp).iter().map(|e| e.id));
         }
         seen.push(comp);
         *i += 1;
